@@ -2,6 +2,20 @@
 from vlib import core, bench_checks as B, harness as H
 
 
+SPECIAL = [('XSquared', {'dim': 2}, [1e-160, 5e-324]), ('XSquared', {'dim': 1}, [5e-324]), ('Rastrigin', {'dim': 2}, [1e-160, 1e-200]), ('Rastrigin', {'dim': 1}, [5e-324]),
+           ('StronginC3', {}, [1e-170, 0.5]), ('XSquared', {'dim': 3}, [1e300 ** 0.5 * 1e-155, 0.1, 1e-161])]
+
+
+def special_reference():
+    import json
+    code = ("import sys, json, warnings; warnings.simplefilter('ignore'); sys.path.insert(0, '/verif')\nfrom vlib import bench_checks as B\n"
+            "print('REF=' + json.dumps([B.calc(B.problem(f, **kw), y) for f, kw, y in %r]))" % (SPECIAL,))
+    rc, out, dt = H.run_isolated(code, timeout=120)
+    line = [l for l in out.splitlines() if l.startswith('REF=')]
+    vals = json.loads(line[0][4:]) if line else []
+    return list(zip([(f, kw, y) for f, kw, y in SPECIAL], vals))
+
+
 def run(chk):
     import numpy as np
     from iOpt.trial import Point, FunctionValue
@@ -19,6 +33,8 @@ def run(chk):
     found = 0
     steps = 4000 if thorough else 900
     buffers = {}        # dimension -> one numpy buffer reused (mutated in place) between calls
+    holders = {}
+    special_ref = special_reference()
     kinds = {}
 
     def fresh_value(fam, kw, y):
@@ -38,7 +54,14 @@ def run(chk):
             y, v0 = rng.choice(pts)
         else:
             y = tuple(a + (b - a) * rng.random() for a, b in zip(lo, hi))
-            v0 = fresh_value(fam, kw, y)
+            try:
+                v0 = fresh_value(fam, kw, y)
+            except Exception as e:  # noqa
+                found += chk.violation('impure', '%s%r: a FRESH instance raised %s at %r after %d interleaved constructions/evaluations of other problems: %s'
+                                       % (fam, kw, type(e).__name__, list(y), step, str(e)[:100]), {'kind': 'history', 'family': fam, 'args': kw, 'point': list(y), 'step': step, 'seed': chk.seed})
+                if found > 2:
+                    break
+                continue
             pts.append((y, v0))
         mode = rng.choice(['fresh-array', 'reused-buffer', 'list'])
         if mode == 'reused-buffer':
@@ -49,7 +72,14 @@ def run(chk):
             arg = list(y)
         else:
             arg = np.array(y, dtype=np.double)
-        fv = FunctionValue()
+        hmode = rng.choice(['new', 'new', 'reused', 'prefilled'])
+        if hmode == 'reused':      # one holder object used for many evaluations (a scan loop): it still carries the previous value
+            fv = holders.setdefault('h', FunctionValue())
+        elif hmode == 'prefilled':
+            fv = FunctionValue(); fv.value = rng.choice([123.5, -7.0, float('nan'), float('inf')])
+        else:
+            fv = FunctionValue()
+        mode = mode + '/' + hmode + ' holder'
         try:
             out = pb.Calculate(Point(arg, []), fv)
         except Exception as e:
@@ -67,6 +97,18 @@ def run(chk):
                                    % (fam, kw, list(y), float(fv.value), step, mode, v0), {'kind': 'history', 'family': fam, 'args': kw, 'point': list(y), 'step': step, 'seed': chk.seed})
         if found > 2:
             break
+    # special points (tiny and denormal coordinates) against values computed in a fresh interpreter before this history
+    for (fam, kw, y), ref in special_ref:
+        chk.evaluations += 1
+        try:
+            got = B.calc(B.problem(fam, **kw), y)
+        except Exception as e:  # noqa
+            found += chk.violation('impure', '%s%r at %r raised %s after the interleaved history (value in a fresh interpreter: %r)' % (fam, kw, y, type(e).__name__, ref),
+                                   {'kind': 'special', 'family': fam, 'args': kw, 'point': y, 'seed': chk.seed})
+            continue
+        if not (got == ref):
+            found += chk.violation('impure', '%s%r at %r is %r after the interleaved history, %r in a fresh interpreter' % (fam, kw, y, got, ref),
+                                   {'kind': 'special', 'family': fam, 'args': kw, 'point': y, 'seed': chk.seed})
     chk.nontrivial += sum(len(v) for v in memo.values())
     chk.cov['distribution'] = {'evaluations_by_family': kinds, 'distinct_instances': len(memo)}
     chk.sample({'history_step': {'family': 'GKLS', 'args': {'dim': 3, 'k': 7}, 'mode': 'reused-buffer'}})
